@@ -16,6 +16,7 @@ import (
 	"context"
 	"database/sql"
 	"database/sql/driver"
+	"encoding/json"
 	"errors"
 	"fmt"
 	"io"
@@ -30,6 +31,7 @@ import (
 	"testing"
 	"time"
 
+	"github.com/go-sql-driver/mysql"
 	"github.com/gotid/god/lib/breaker"
 	"github.com/gotid/god/lib/logx"
 	"pgregory.net/rapid"
@@ -51,9 +53,77 @@ const (
 	c11OtherDSN   = "user:secret@verif-c11-other" // a second data source alive in the same process
 )
 
-type c11Fault struct{ site string }
+// c11Fault is an error the fake driver injects. Its identity is the pointer
+// (one per site). base, when set, is the error value a real driver would return
+// there (an exported sentinel of github.com/go-sql-driver/mysql or a
+// *mysql.MySQLError): the fault wraps it (errors.Is / errors.As see it), or, when
+// bare, the driver returns base ITSELF (code that compares with == sees it; the
+// sites of one case then share one identity).
+type c11Fault struct {
+	site string
+	base error
+	bare bool
+}
 
-func (e *c11Fault) Error() string { return "c11 injected driver fault at " + e.site }
+func (e *c11Fault) Error() string {
+	if e.base != nil {
+		return "c11 injected driver fault at " + e.site + ": " + e.base.Error()
+	}
+	return "c11 injected driver fault at " + e.site
+}
+
+func (e *c11Fault) Unwrap() error { return e.base }
+
+// out is the error value the driver returns for the fault.
+func (e *c11Fault) out() error {
+	if e.bare && e.base != nil {
+		return e.base
+	}
+	return e
+}
+
+// c11IsFault: err is (or wraps) the injected fault.
+func c11IsFault(err error, f *c11Fault) bool {
+	if errors.Is(err, f) {
+		return true
+	}
+	return f.bare && f.base != nil && errors.Is(err, f.base)
+}
+
+// C11DriverErrKinds are the identities an injected fault can have besides the
+// fake's own error type: exported sentinel errors of the MySQL driver the
+// package is built with, and server errors (*mysql.MySQLError) by number.
+var C11DriverErrKinds = []string{"myinvalid", "myinvalid", "mybusy", "mypktsync", "mymalform", "mytoolarge", "mydup", "mydeadlock", "mylockwait"}
+
+// c11DriverError builds the driver error of kind k ("" = none).
+func c11DriverError(k string) error {
+	switch k {
+	case "myinvalid":
+		return mysql.ErrInvalidConn
+	case "mybusy":
+		return mysql.ErrBusyBuffer
+	case "mypktsync":
+		return mysql.ErrPktSync
+	case "mymalform":
+		return mysql.ErrMalformPkt
+	case "mytoolarge":
+		return mysql.ErrPktTooLarge
+	case "mydup":
+		return &mysql.MySQLError{Number: 1062, Message: "Duplicate entry '7' for key 'PRIMARY'"}
+	case "mydeadlock":
+		return &mysql.MySQLError{Number: 1213, Message: "Deadlock found when trying to get lock; try restarting transaction"}
+	case "mylockwait":
+		return &mysql.MySQLError{Number: 1205, Message: "Lock wait timeout exceeded; try restarting transaction"}
+	}
+	return nil
+}
+
+// setBase gives every fault of the script the driver-error identity base.
+func (f *c11Fake) setBase(base error, bare bool) {
+	for _, e := range []*c11Fault{f.connectErr, f.beginErr, f.commitErr, f.rollbackErr, f.iterErr} {
+		e.base, e.bare = base, bare
+	}
+}
 
 // c11Fake is the script and the recorder of one case.
 type c11Fake struct {
@@ -79,11 +149,11 @@ type c11Fake struct {
 func newC11Fake() *c11Fake {
 	return &c11Fake{
 		iterFailAfter: -1,
-		iterErr:       &c11Fault{"row iteration"},
-		connectErr:    &c11Fault{"connect"},
-		beginErr:      &c11Fault{"begin"},
-		commitErr:     &c11Fault{"commit"},
-		rollbackErr:   &c11Fault{"rollback"},
+		iterErr:       &c11Fault{site: "row iteration"},
+		connectErr:    &c11Fault{site: "connect"},
+		beginErr:      &c11Fault{site: "begin"},
+		commitErr:     &c11Fault{site: "commit"},
+		rollbackErr:   &c11Fault{site: "rollback"},
 	}
 }
 
@@ -163,7 +233,7 @@ type c11Connector struct{ f *c11Fake }
 
 func (c c11Connector) Connect(context.Context) (driver.Conn, error) {
 	if c.f.failConnect {
-		return nil, c.f.connectErr
+		return nil, c.f.connectErr.out()
 	}
 	return &c11Conn{f: c.f}, nil
 }
@@ -205,7 +275,7 @@ func (c *c11Conn) prefix(f *c11Fake) string {
 
 func (c *c11Conn) Prepare(q string) (driver.Stmt, error) {
 	if e := c.fake().takeArmedAtPrepare(); e != nil {
-		return nil, e
+		return nil, e.out()
 	}
 	return &c11Stmt{c: c, q: q}, nil
 }
@@ -232,7 +302,7 @@ func (c *c11Conn) BeginTx(context.Context, driver.TxOptions) (driver.Tx, error) 
 		return nil, driver.ErrBadConn
 	}
 	if f.failBegin {
-		return nil, f.beginErr
+		return nil, f.beginErr.out()
 	}
 	f.mu.Lock()
 	f.openTx++
@@ -253,7 +323,7 @@ func (c *c11Conn) doExec() (driver.Result, error) {
 	f := c.fake()
 	f.log(c.prefix(f) + "exec")
 	if e := f.takeArmed(); e != nil {
-		return nil, e
+		return nil, e.out()
 	}
 	return driver.RowsAffected(1), nil
 }
@@ -262,9 +332,9 @@ func (c *c11Conn) doQuery() (driver.Rows, error) {
 	f := c.fake()
 	f.log(c.prefix(f) + "query")
 	if e := f.takeArmed(); e != nil {
-		return nil, e
+		return nil, e.out()
 	}
-	return &c11Rows{cols: f.cols, rows: f.rows, failAfter: f.iterFailAfter, failErr: f.iterErr}, nil
+	return &c11Rows{cols: f.cols, rows: f.rows, failAfter: f.iterFailAfter, failErr: f.iterErr.out()}, nil
 }
 
 type c11Stmt struct {
@@ -298,7 +368,7 @@ func (t *c11Tx) end(ev string) {
 func (t *c11Tx) Commit() error {
 	t.end("commit")
 	if t.f.failCommit {
-		return t.f.commitErr
+		return t.f.commitErr.out()
 	}
 	return nil
 }
@@ -306,7 +376,7 @@ func (t *c11Tx) Commit() error {
 func (t *c11Tx) Rollback() error {
 	t.end("rollback")
 	if t.f.failRollback {
-		return t.f.rollbackErr
+		return t.f.rollbackErr.out()
 	}
 	return nil
 }
@@ -425,12 +495,14 @@ type C11TxCase struct {
 	Log       string    `json:"lg,omitempty"` // package logging switches: "" both on | off (sqlx.DisableLog) | stmtoff (sqlx.DisableStmtLog)
 	FCommit   bool      `json:"fc,omitempty"`
 	FRollback bool      `json:"fr,omitempty"`
+	FE        string    `json:"fe,omitempty"` // identity of every fault the driver injects in this case (connect, Begin, statements, Commit, Rollback): "" the fake's own error type | a kind of C11DriverErrKinds (an exported error of the MySQL driver / a *mysql.MySQLError)
+	FBare     bool      `json:"fv,omitempty"` // with fe: the driver returns that error value itself (else an error of the fake's type that wraps it)
 }
 
 // C11BodyErrKinds are the error values a transaction body returns in the
 // cases: an opaque errors.New value, the database/sql, driver and context
 // sentinels a real body can propagate, io.EOF, and an error type of its own.
-var C11BodyErrKinds = []string{"", "txdone", "norows", "conndone", "badconn", "canceled", "deadline", "eof", "custom", "typednil"}
+var C11BodyErrKinds = []string{"", "txdone", "norows", "conndone", "badconn", "canceled", "deadline", "eof", "custom", "typednil", "myinvalid", "mybusy", "mydup", "mydeadlock"}
 
 type c11CustomErr struct{ code int }
 
@@ -465,7 +537,9 @@ func c11BodyError(k string, w bool) error {
 		var p *c11CustomErr
 		e = p // a non-nil error value holding a nil pointer
 	default:
-		e = errors.New("c11 body error")
+		if e = c11DriverError(k); e == nil {
+			e = errors.New("c11 body error")
+		}
 	}
 	if w {
 		e = fmt.Errorf("c11 body: step failed: %w", e)
@@ -563,6 +637,10 @@ func VerifC11GenTx(entries []string) func(rt *rapid.T) C11TxCase {
 		}
 		c.FCommit = rapid.IntRange(0, 3).Draw(rt, "fcommit") == 0
 		c.FRollback = rapid.IntRange(0, 3).Draw(rt, "frollback") == 0
+		if rapid.IntRange(0, 3).Draw(rt, "fault-identity") == 1 {
+			c.FE = rapid.SampledFrom(C11DriverErrKinds).Draw(rt, "fault-identity-kind")
+			c.FBare = rapid.Bool().Draw(rt, "fault-identity-bare")
+		}
 		c.Log = rapid.SampledFrom([]string{"", "", "off", "off", "stmtoff", "slow"}).Draw(rt, "log")
 		return c
 	}
@@ -713,7 +791,12 @@ func VerifC11InterpTx(c C11TxCase, run C11Runner) (v kit.Verdict) {
 	prescribed := c.Out
 	var stmtErrs []*c11Fault
 	for i := range c.Stmts {
-		stmtErrs = append(stmtErrs, &c11Fault{fmt.Sprintf("stmt %d", i)})
+		stmtErrs = append(stmtErrs, &c11Fault{site: fmt.Sprintf("stmt %d", i)})
+	}
+	faultBase := c11DriverError(c.FE)
+	f.setBase(faultBase, c.FBare)
+	for _, e := range stmtErrs {
+		e.base, e.bare = faultBase, c.FBare
 	}
 	retIdx := -1
 	modelExact := true // every statement behaves as the driver script alone says
@@ -805,7 +888,7 @@ func VerifC11InterpTx(c C11TxCase, run C11Runner) (v kit.Verdict) {
 					nestedWrong = fmt.Sprintf("statement %d: nested Transact (%s) on the enclosing connection: the driver saw %v, want %v", i, st.K, got, wantDelta)
 				case st.K == "nnil" && !c.FCommit && err != nil:
 					nestedWrong = fmt.Sprintf("statement %d: nested Transact whose body returned nil and whose Commit succeeded returned %v", i, err)
-				case st.K == "nnil" && c.FCommit && !errors.Is(err, f.commitErr):
+				case st.K == "nnil" && c.FCommit && !c11IsFault(err, f.commitErr):
 					nestedWrong = fmt.Sprintf("statement %d: nested Transact whose Commit failed returned %v", i, err)
 				case st.K == "nerr" && err == nil:
 					nestedWrong = fmt.Sprintf("statement %d: nested Transact whose body returned an error returned nil", i)
@@ -862,13 +945,13 @@ func VerifC11InterpTx(c C11TxCase, run C11Runner) (v kit.Verdict) {
 				// the driver failed this statement: the session call must say so
 				if err == nil {
 					lostFault = fmt.Sprintf("statement %d (%s): the driver failed it with %q but the session call returned a nil error", i, st.K, stmtErrs[i])
-				} else if !errors.Is(err, stmtErrs[i]) {
+				} else if !c11IsFault(err, stmtErrs[i]) {
 					lostFault = fmt.Sprintf("statement %d (%s): the driver failed it with %q but the session call returned the unrelated error %q", i, st.K, stmtErrs[i], err)
 				}
 			}
 			if err != nil {
 				var inj *c11Fault
-				if errors.As(err, &inj) {
+				if errors.As(err, &inj) || (c.FBare && faultBase != nil && errors.Is(err, faultBase)) {
 					sawStmtFault = true
 				} else {
 					ctxFailedStmt = true
@@ -1001,6 +1084,13 @@ func VerifC11InterpTx(c C11TxCase, run C11Runner) (v kit.Verdict) {
 	if c.FBegin == "badconn1" {
 		classes = append(classes, "begin:first-attempt-on-dead-connection")
 	}
+	if c.FE != "" {
+		if c.FBare {
+			classes = append(classes, "fault-identity:"+c.FE+"/bare")
+		} else {
+			classes = append(classes, "fault-identity:"+c.FE+"/wrapped")
+		}
+	}
 	if beginFails {
 		if c11ProviderFails(c.Entry) {
 			classes = append(classes, "begin-fault:no-database-handle")
@@ -1129,7 +1219,7 @@ func VerifC11InterpTx(c C11TxCase, run C11Runner) (v kit.Verdict) {
 		if outcome != prescribed {
 			return v.Failf("live context: the body ended with outcome %q, the case prescribes %q: a statement did not behave as the driver script says (%s)", outcome, prescribed, describe())
 		}
-		if outcome == "err" && retIdx >= 0 && returned != error(stmtErrs[retIdx]) {
+		if outcome == "err" && retIdx >= 0 && returned != stmtErrs[retIdx].out() {
 			return v.Failf("live context: statement %d returned %v to the body, the driver failed it with %v (%s)", retIdx, returned, stmtErrs[retIdx], describe())
 		}
 	}
@@ -1179,7 +1269,7 @@ func VerifC11InterpTx(c C11TxCase, run C11Runner) (v kit.Verdict) {
 			return v.Failf("body returned nil and Commit succeeded, but Transact returned %v (%s)", res, describe())
 		case c.FCommit && res == nil:
 			return v.Failf("body returned nil and Commit failed, but Transact returned nil: the commit's own error is lost (%s)", describe())
-		case c.FCommit && !errors.Is(res, f.commitErr):
+		case c.FCommit && !c11IsFault(res, f.commitErr):
 			return v.Failf("body returned nil and Commit failed with %q, but Transact returned another error (%s)", f.commitErr, describe())
 		case !historyOK("commit"):
 			return v.Failf("body returned nil: driver history differs from begin, statements %v, commit (%s)", executed, describe())
@@ -1386,6 +1476,26 @@ func c11EnumerateTx(maxStmts, maxCtxStmts int) func(yield func(C11TxCase) bool) 
 				return
 			}
 		}
+		// faults with the identity of a MySQL driver error (wrapped / the value itself), <= 1 statement
+		for _, fe := range []string{"myinvalid", "mydup"} {
+			for _, bare := range []bool{false, true} {
+				for _, e := range []string{"transact", "transactctx", "onconn", "newconn"} {
+					for _, o := range outs {
+						for _, stmts := range [][]C11Stmt{nil, {{K: "exec", F: true, R: "ret"}}, {{K: "exec", F: true, R: "ign"}}, {{K: "query", F: true, R: "ret"}}, {{K: "prep", F: true, R: "ret"}}, {{K: "prep", F: true, P: true, R: "ret"}}} {
+							for _, fb := range []string{"", "begin"} {
+								for _, fc := range []bool{false, true} {
+									for _, fr := range []bool{false, true} {
+										if !yield(C11TxCase{Entry: e, Stmts: stmts, Out: o.o, PanicV: o.pv, FBegin: fb, FCommit: fc, FRollback: fr, FE: fe, FBare: bare}) {
+											return
+										}
+									}
+								}
+							}
+						}
+					}
+				}
+			}
+		}
 		// connections without a database handle: every outcome, context state and Commit/Rollback script
 		for _, e := range []string{"nodriver", "mysqlbad"} {
 			for _, cx := range []string{"", "pre", "dead", "b0"} {
@@ -1555,6 +1665,30 @@ func c11Leaves(fs []C11Field) []c11Leaf {
 		}
 	}
 	return out
+}
+
+// c11EmbeddedTwice: some embedded struct type occurs more than once in the
+// destination (equal descriptions at equal depth are one reflect type).
+func c11EmbeddedTwice(fs []C11Field) bool {
+	seen := map[string]int{}
+	var walk func(fs []C11Field, depth int)
+	walk = func(fs []C11Field, depth int) {
+		for _, f := range fs {
+			if f.E == nil {
+				continue
+			}
+			raw, _ := json.Marshal(f.E)
+			seen[fmt.Sprintf("%d:%s", depth, raw)]++
+			walk(f.E, depth+1)
+		}
+	}
+	walk(fs, 1)
+	for _, n := range seen {
+		if n > 1 {
+			return true
+		}
+	}
+	return false
 }
 
 func c11HasEmbedded(fs []C11Field) bool {
@@ -1974,7 +2108,7 @@ func VerifC11GenRows(sessions []string) func(rt *rapid.T) C11RowsCase {
 			c.It = k + 1
 		}
 		c.Shape = rapid.SampledFrom([]string{"tagged", "tagged", "tagged", "tagged", "tagged", "tagged",
-			"untagged", "untagged", "emb-untagged", "emb-tagged", "mixed", "prim", "named", "named"}).Draw(rt, "shape")
+			"untagged", "untagged", "emb-untagged", "join", "emb-tagged", "mixed", "prim", "named", "named", "join"}).Draw(rt, "shape")
 
 		if c.Shape == "prim" {
 			c.Prim = rapid.SampledFrom([]string{"i64", "str", "f64", "bool", "i32", "u64"}).Draw(rt, "prim")
@@ -2031,8 +2165,48 @@ func VerifC11GenRows(sessions []string) func(rt *rapid.T) C11RowsCase {
 				leaves[0].G = "c0"
 			}
 		}
-		// group a run of leaves into an embedded struct
-		if strings.HasPrefix(c.Shape, "emb-") {
+		if c.Shape == "join" {
+			// join-style row, untagged: two or three parent structs (by value / by pointer) that
+			// each embed the SAME base struct type (by value / by pointer) next to 0..2 fields of
+			// their own, e.g. struct{ User; Order } with User{Base; Name}, Order{Base; Amount}.
+			// (c11BuildType names fields by depth and index, so equal descriptions at equal
+			// depth are one reflect type.)
+			draw := func(k int, label string) []C11Field {
+				out := make([]C11Field, k)
+				for i := range out {
+					out[i].T = rapid.SampledFrom(leafTypes).Draw(rt, label)
+				}
+				return out
+			}
+			base := draw(rapid.IntRange(1, 2).Draw(rt, "join-nbase"), "join-basetype")
+			nparents := 2
+			if rapid.Bool().Draw(rt, "join-three1") && rapid.Bool().Draw(rt, "join-three2") {
+				nparents = 3
+			}
+			var fs []C11Field
+			if rapid.Bool().Draw(rt, "join-lead") {
+				fs = append(fs, draw(1, "join-leadtype")...)
+			}
+			for p := 0; p < nparents; p++ {
+				own := draw(rapid.IntRange(0, 2).Draw(rt, "join-nown"), "join-owntype")
+				at := rapid.IntRange(0, len(own)).Draw(rt, "join-baseat")
+				var e []C11Field
+				e = append(e, own[:at]...)
+				e = append(e, C11Field{E: append([]C11Field(nil), base...), P: rapid.Bool().Draw(rt, "join-baseptr")})
+				e = append(e, own[at:]...)
+				fs = append(fs, C11Field{E: e, P: rapid.Bool().Draw(rt, "join-parentptr")})
+			}
+			if rapid.Bool().Draw(rt, "join-trail") {
+				fs = append(fs, draw(1, "join-trailtype")...)
+			}
+			c.Fields = fs
+			leaves = leaves[:0]
+			for _, l := range c11Leaves(fs) {
+				leaves = append(leaves, C11Field{T: l.T, G: l.G})
+			}
+			n = len(leaves)
+			c.Twin = false
+		} else if strings.HasPrefix(c.Shape, "emb-") { // group a run of leaves into an embedded struct
 			lo := rapid.IntRange(0, n-1).Draw(rt, "emblo")
 			hi := rapid.IntRange(lo, n-1).Draw(rt, "embhi")
 			emb := C11Field{E: append([]C11Field(nil), leaves[lo:hi+1]...), P: rapid.Bool().Draw(rt, "embptr")}
@@ -2057,7 +2231,7 @@ func VerifC11GenRows(sessions []string) func(rt *rapid.T) C11RowsCase {
 				col.N = fmt.Sprintf("u%d", i)
 				if misleading { // a name that is another field's Go name or tag
 					col.N = fmt.Sprintf("F0_%d", (i+1)%n)
-					if c.Shape == "untagged" || c.Shape == "emb-untagged" {
+					if c.Shape == "untagged" || c.Shape == "emb-untagged" || c.Shape == "join" {
 						col.N = fmt.Sprintf("c%d", (i+1)%n)
 					}
 				}
@@ -2105,7 +2279,7 @@ func VerifC11GenRows(sessions []string) func(rt *rapid.T) C11RowsCase {
 			permute := false
 			if byName {
 				permute = rapid.IntRange(0, 9).Draw(rt, "permute") < 8
-			} else if c.Shape != "untagged" && c.Shape != "emb-untagged" {
+			} else if c.Shape != "untagged" && c.Shape != "emb-untagged" && c.Shape != "join" {
 				permute = rapid.IntRange(0, 9).Draw(rt, "permute") == 0 // unspecified for embedded/mixed
 			}
 			if permute {
@@ -2467,7 +2641,7 @@ func VerifC11InterpRows(c C11RowsCase, q C11Querier) (v kit.Verdict) {
 	}
 	classes := map[string]bool{"sess:" + c.Sess: true, "form:" + form: true, fmt.Sprintf("nrows:%d", c.NRows): true,
 		"log:" + c11LogNames[c.Log]: true}
-	queryFault := &c11Fault{"query"}
+	queryFault := &c11Fault{site: "query"}
 	qf := c.QF && !c.Cd && c.AS == "" && !c11NoDB(c.Sess) // the driver fails the query (or the Prepare)
 	if qf {
 		if c.PF && (c.Sess == "stmt" || c.Sess == "txstmt") {
@@ -2848,6 +3022,9 @@ func VerifC11InterpRows(c C11RowsCase, q C11Querier) (v kit.Verdict) {
 	}
 	if hasEmb {
 		classes["embedded"] = true
+		if c11EmbeddedTwice(c.Fields) {
+			classes["embedded:one-type-through-several-parents"] = true
+		}
 	}
 	colByName := map[string]int{}
 	for i, col := range c.Cols {
@@ -3400,6 +3577,7 @@ type C11HistOp struct {
 	FR  bool   `json:"fr,omitempty"`  // tx: the driver fails Rollback
 	BE  string `json:"be,omitempty"`  // tx, o = err: body error value (see C11BodyErrKinds)
 	BW  bool   `json:"bw,omitempty"`  // ... wrapped with %w
+	FE  string `json:"fe,omitempty"`  // identity the injected faults of this call wrap (see C11DriverErrKinds; "" = none)
 	Gap int    `json:"gap,omitempty"` // virtual milliseconds slept before the call
 }
 
@@ -3461,6 +3639,9 @@ func VerifC11GenHist(rt *rapid.T) C11HistCase {
 			op.Out = rapid.SampledFrom([]string{"nil", "nil", "nil", "err", "panic"}).Draw(rt, "out")
 			op.FC = rapid.IntRange(0, 5).Draw(rt, "fc") == 3
 			op.FR = rapid.IntRange(0, 5).Draw(rt, "fr") == 3
+			if (op.F || op.FC || op.FR) && rapid.Bool().Draw(rt, "fault-identity") {
+				op.FE = rapid.SampledFrom(C11DriverErrKinds).Draw(rt, "fault-identity-kind")
+			}
 			if op.Out == "err" && rapid.Bool().Draw(rt, "sentinel") {
 				op.BE = rapid.SampledFrom(C11BodyErrKinds).Draw(rt, "bodyerrkind")
 				op.BW = rapid.Bool().Draw(rt, "bodyerrwrapped")
@@ -3555,7 +3736,11 @@ func VerifC11InterpHist(t *testing.T, c C11HistCase, mk func(db *sql.DB) C11Hist
 			}
 			start := len(f.snapshot())
 			f.failCommit, f.failRollback = op.FC, op.FR
-			stmtErr := &c11Fault{fmt.Sprintf("op %d", i)}
+			stmtErr := &c11Fault{site: fmt.Sprintf("op %d", i), base: c11DriverError(op.FE)}
+			f.setBase(stmtErr.base, false)
+			if op.FE != "" {
+				classes["fault-identity:"+op.FE] = true
+			}
 			what := fmt.Sprintf("call %d of %d %+v", i, len(c.Ops), op)
 			var err error
 			var panicked bool
@@ -3726,7 +3911,7 @@ func VerifC11InterpHist(t *testing.T, c C11HistCase, mk func(db *sql.DB) C11Hist
 					fail = fmt.Sprintf("%s: body outcome %s: driver history of the call is not [begin exec %s] (%s)", what, outcome, terminal, desc)
 				case outcome == "nil" && !op.FC && err != nil:
 					fail = fmt.Sprintf("%s: body returned nil and Commit succeeded but Transact returned %v (%s)", what, err, desc)
-				case outcome == "nil" && op.FC && !errors.Is(err, f.commitErr):
+				case outcome == "nil" && op.FC && !c11IsFault(err, f.commitErr):
 					fail = fmt.Sprintf("%s: body returned nil and Commit failed but Transact returned %v (%s)", what, err, desc)
 				case outcome == "err" && err == nil:
 					fail = fmt.Sprintf("%s: body returned %q but Transact returned nil (%s)", what, returned, desc)
